@@ -402,3 +402,7 @@ func Hash64(s string) uint64 {
 	h.Write([]byte(s))
 	return h.Sum64()
 }
+
+// Violations returns the number of violations reported by this process so far
+// (checks whose failing cases are expensive stop a stream after a cap).
+func (c *Ctx) Violations() int64 { return atomic.LoadInt64(&c.violations) }
